@@ -25,6 +25,8 @@ func main() {
 		cmdVerify(os.Args[2:])
 	case "check":
 		os.Exit(cmdCheck(os.Args[2:]))
+	case "replay":
+		os.Exit(cmdReplay(os.Args[2:]))
 	default:
 		usage()
 	}
@@ -115,4 +117,4 @@ func cmdVerify(args []string) {
 	fmt.Println("undischarged:", bad)
 }
 
-var allPkgDirs = []string{"lib/uu", "internal/iobroker", "internal/hsrv", "lib/opshell", "lib/shellfuncsfile", "lib/simpleshell", "lib/sstls", "."}
+var allPkgDirs = []string{"..."}
